@@ -109,6 +109,10 @@ DOCUMENTED_KEY_KIND = {'repository': 'repository', 'concurrent': 'natural', 'hid
 DOCUMENTED_ENV_KIND = {'REPLICAT_REPOSITORY': 'repository', 'REPLICAT_PASSWORD': 'textbytes'}
 
 
+# README, table of configuration file options: "Cannot be used together with …"
+DOCUMENTED_FILE_EXCLUSIVE = [{'password', 'password-file'}, {'key', 'key-file'}]
+
+
 class Setting:
     """one way an option is set at one level: `kind` as above, or 'const' (flag without value) with `value`,
     or 'null-if-true' (the `no-cache` key)"""
